@@ -113,8 +113,39 @@ for nm, nb, vmax, crc, tier, to in (("emit_split_n5", 5, 2, False, "quick", 600)
     add(nm, "h_emit.c", "h_emit_split", {"C09": tier, "C05": tier, "C06": tier, "C01": tier, "C15": tier if crc else "thorough"},
         defines=["-DNB=%d" % nb, "-DVMAX=%d" % vmax] + ([] if crc else ["-DNO_CRC"]), extra_src=["crctab.c"],
         cbmc=["--unwind", str(nb + 7), "--unwindset", "emit.0:%d,emit.1:%d,emit.2:%d,emit.3:%d,emit.4:%d" % (vmax + 2, vmax + 2, vmax + 2, vmax + 2, nb + 2)],
-        backend="kissat", timeout=to, mem_gb=8, functions=EMIT_FUNCS,
+        backend="kissat", timeout=to, mem_gb=8, functions=EMIT_FUNCS, witness_mode="any" if nb < 5 else "all",
         bounds="decoded block of <= %d bytes (byte values 0..%d, arbitrary in-range IBWT links), emitted through up to three output buffers of arbitrary sizes; %s"
                % (nb, vmax, "CRC compared" if crc else "CRC not compared in this query (see emit_crc_*)"),
         assumptions=["the IBWT list is given directly (arbitrary links < block size); decode() that builds it is checked separately"],
         outside=["blocks above %d bytes / count bytes above %d; more than two suspensions per block" % (nb, vmax)])
+
+# ------------------------------------------------------------------------------- process.c I/O layer
+OSMODEL_IO = ["operating system replaced by a symbolic stub: each read()/write() returns any count its contract allows (>=1 unless EOF, <= request) or -1 with an arbitrary errno",
+              "pthread primitives are no-ops in these single-threaded queries; a condition wait ends the explored path (blocked)"]
+def proc_ob(name, entry, props, bounds, funcs, unwind=16, to=300, **kw):
+    add(name, "h_process.c", entry, props, cbmc=["--unwind", str(unwind)], backend="kissat", timeout=to, mem_gb=6,
+        functions=funcs, bounds=bounds, assumptions=OSMODEL_IO, **kw)
+proc_ob("xread_fill", "h_xread", {"C03": "quick", "C21": "quick", "C19": "quick"},
+        "chunk size 1..4, file of <=6 bytes from any offset, up to 6 read() calls each with an arbitrary result", ["src/process.c:xread"],
+        defines=["-DSRC_MAX=6", "-DNCALL=6"], unwind=9, witnesses=["read_error_reported", "chunk_filled_from_fragments", "short_chunk_at_eof"])
+proc_ob("xwrite_short", "h_xwrite", {"C03": "quick", "C21": "quick", "C09": "quick"},
+        "buffer of 0..4 bytes, up to 6 write() calls each with an arbitrary result; output fd real or -1 (-t)", ["src/process.c:xwrite"],
+        defines=["-DSRC_MAX=6", "-DNCALL=6"], unwind=9, witnesses=["write_error_reported", "discarding", "buffer_written_in_fragments"])
+proc_ob("sniff", "h_sniff", {"C19": "quick", "C07": "quick", "C21": "quick"},
+        "work() in decompress mode: file of 0..6 arbitrary bytes, arbitrary read() fragmentation (<=6 calls), -f on/off, output = stdout / file / discard",
+        ["src/process.c:work", "src/process.c:xread", "src/process.c:xwrite", "src/process.c:copy", "src/process.c:schedule"],
+        defines=["-DSRC_MAX=6", "-DNCALL=6"], unwind=9,
+        witnesses=["sniff_read_error", "sniff_write_error", "rejected_not_bzip2", "bzip2_header", "copy_through", "copy_through_short_input"])
+proc_ob("memconstraints", "h_memconstraints", {"C13": "quick", "C03": "quick", "C04": "quick", "C11": "quick"},
+        "all worker counts 1..65535, levels 1..9, compress/decompress, small flag (complete)", ["src/process.c:set_memory_constraints"],
+        witnesses=["compress_config", "decompress_config"])
+for ch in (1, 2):
+  proc_ob("copy_seq_chunk%d" % ch, "h_copy_seq", {"C19": "quick"},
+        "copy pipeline with buffer size %d and a file of <=3 bytes (<=2 buffers in flight), arbitrary read()/write() fragmentation; reader run to completion, then writer" % ch,
+        ["src/process.c:source_thread_proc", "src/process.c:sink_thread_proc", "src/process.c:copy_on_input_avail", "src/process.c:copy_on_write_complete",
+         "src/process.c:copy_terminate", "src/process.c:sink_write_buffer", "src/process.c:source_release_buffer", "src/process.c:sched_unlock"],
+        defines=["-DSRC_MAX=3", "-DNCALL=5", "-DCHUNK=%d" % ch], to=600, unwind=7,
+        witnesses=["empty_input", "input_exactly_one_chunk"] + (["two_chunks"] if ch == 2 else []),
+        outside=["real 64 KiB buffers and real thread interleavings of reader and writer (only the sequential order reader-then-writer is explored)",
+                 "inputs of more than two buffers (the reader then blocks on a slot; path ends)"])
+proc_ob("copy_terminate", "h_copy_terminate", {"C19": "quick"}, "all values of eof/out_slots/total_out_slots (complete)", ["src/process.c:copy_terminate"], witnesses=["completion_signalled"])
